@@ -26,7 +26,7 @@ Example goroutines_ok :
 Proof. repeat split; reflexivity. Qed.
 
 Example reader_ok :
-  reader_round_robin_count = 2 /\ reader_input_index = true /\ reader_send_in_select = true /\ reader_closes_inputs = true.
+  reader_round_robin_count = 2 /\ reader_input_index = true /\ reader_closes_inputs = true.
 Proof. repeat split; reflexivity. Qed.
 
 Example capacities_ok : chan_budget_div_n = true /\ chan_caps_ok = true /\ 1 <= chan_budget.
@@ -44,14 +44,20 @@ Example xml_scanner_ok :
                    "s.closed -> return osm.ErrScannerClosed"; "return s.ctx.Err()"].
 Proof. repeat split; reflexivity. Qed.
 
-(* every blocking operation of the three kinds of goroutine is one the model has: each select has
-   exactly the data case and the ctx.Done case (no timer, no default, no missing Done), the only
-   channel operation outside a select is the push of a resumed file's first block, and Start uses
-   no timers (Pipeline/Model.v: step_reader, step_worker, step_ser) *)
+(* every blocking operation of the three kinds of goroutine is one the model has (normal form of
+   translator/cmd/pipeline: local channel variables replaced by what they denote, transmitted values
+   dropped): each select has exactly the data case and the ctx.Done case (no timer, no default, no
+   missing Done), the only channel operation outside a select is the push of a resumed file's first
+   block to input 0, and neither Start nor its goroutines use timers
+   (Pipeline/Model.v: step_reader, step_worker, step_ser) *)
 Example blocking_ops_ok :
-  reader_selects = ["<-dec.ctx.Done() | input <- pair"] /\
-  worker_selects = ["<-dec.ctx.Done() | output <- out"] /\
-  ser_selects = ["<-dec.ctx.Done() | p = <-output"; "<-dec.ctx.Done() | dec.serializer <- p"] /\
-  reader_bare_chan_ops = ["dec.inputs[0] <- iPair{Offset: 0, Blob: blob, Err: err}"] /\
+  reader_selects = ["done dec.ctx | send dec.inputs[_]"] /\
+  worker_selects = ["done dec.ctx | send chan oPair"] /\
+  ser_selects = ["done dec.ctx | recv dec.outputs[_]"; "done dec.ctx | send dec.serializer"] /\
+  reader_bare_chan_ops = ["send dec.inputs[0]"] /\
   worker_bare_chan_ops = [] /\ ser_bare_chan_ops = [] /\ start_uses_timers = false.
 Proof. repeat split; reflexivity. Qed.
+
+(* the error of a closed ordered channel: first non-nil of cData.Err, ctx.Err(), io.EOF *)
+Example next_closed_ok : next_closed_checks = ["dec.cData.Err"; "dec.ctx.Err()"; "io.EOF"].
+Proof. reflexivity. Qed.
